@@ -13,11 +13,7 @@ one() {
   mkdir -p $W/repo $W/verif; rsync -a --exclude .git /repo/ $W/repo/; cp /verif/known_findings.json /verif/anchors.json /verif/fields.json $W/verif/
   if ! (cd $W/repo && patch -p1 -s --no-backup-if-mismatch < /verif/refactorings/$id/patch.diff >/dev/null 2>&1); then echo "$id: does not apply"; rm -rf $W; return; fi
   if ! (cd $W/repo && go build ./... >/dev/null 2>&1); then echo "$id: does not build on the current tree"; rm -rf $W; return; fi
-  alarms=""
-  for p in ${PROPS:-$(bin/ndndcheck -list)}; do
-    o=$(bin/ndndcheck -prop $p -tier quick -repo $W/repo -verif $W/verif 2>&1 | grep -E "^(VIOLATION|UNDECIDED): " | sed -E 's/^(VIOLATION|UNDECIDED): (C[0-9]+) ([^ ]+) .*/\1 \2 \3/' | sort -u | tr '\n' ';')
-    alarms="$alarms$o"
-  done
+  alarms=$(GOGC=off GOMEMLIMIT=4GiB bin/ndndcheck -sweep ${PROPS:-all} -repo $W/repo -verif $W/verif 2>&1 | grep -E "^(VIOLATION|UNDECIDED): " | sed -E 's/^(VIOLATION|UNDECIDED): (C[0-9]+|ALL) ([^ ]+) .*/\1 \2 \3/' | sort -u | tr '\n' ';')
   rm -rf $W
   python3 - "$id" "$alarms" <<'PY'
 import json,sys
